@@ -77,6 +77,10 @@ fn history_specs() -> Vec<CtxSpec> {
     vec![
         CtxSpec { cfg: Cfg::simple(0x23), history: vec![Event::GetLength(good[..3].to_vec()), Event::Decode(bad.clone())] },
         CtxSpec { cfg: Cfg::simple(0x23), history: vec![Event::GetLength(good[..3].to_vec()), Event::Process(bad)] },
+        // a packet that decoded / was processed successfully (anything remembered about an accepted
+        // header must not answer for a different one)
+        CtxSpec { cfg: Cfg::simple(0x23), history: vec![Event::Decode(good.clone())] },
+        CtxSpec { cfg: Cfg::simple(0x23), history: vec![Event::Process(good.clone()), Event::Decode(good.clone())] },
         CtxSpec { cfg: Cfg::simple(0x23), history: vec![Event::Decode(frag.clone())] },
         CtxSpec { cfg: Cfg::simple(0x23), history: vec![Event::Process(frag), Event::GetLength(good[..3].to_vec())] },
     ]
@@ -126,7 +130,7 @@ pub fn run(run: &mut Run) {
     });
     let hspecs = history_specs();
     run.bound("history_contexts", hspecs.len() as u64);
-    run.sweep_chunked("all 2^24 prefixes presented alone on 4 contexts with probe/decode histories (failed-PEC transfer, first fragment)", 1u64 << 24, |acc, lo, hi| {
+    run.sweep_chunked("all 2^24 prefixes presented alone on 6 contexts with probe/decode histories (failed-PEC transfer, accepted packet, first fragment)", 1u64 << 24, |acc, lo, hi| {
         let owned: Vec<Owned> = hspecs.iter().map(|s| Owned::new(&s.cfg)).collect();
         for i in lo..hi {
             let p3 = [(i >> 16) as u8, (i >> 8) as u8, i as u8];
@@ -152,6 +156,7 @@ pub fn run(run: &mut Run) {
         if run.tier.thorough() { 5 } else { 4 },
         &|d: &crate::explore::Diff, h: &[Event]| d.aspect == crate::explore::Aspect::Result && matches!(h.last(), Some(Event::GetLength(_))),
     );
+    crate::props::stateprops::runseq_for(run, "C17", &|d: &crate::explore::Diff, h: &[Event]| d.aspect == crate::explore::Aspect::Result && matches!(h.last(), Some(Event::GetLength(_))));
     run.sweep_chunked("byte0=0x46 prefixes x 300-byte continuation", 1 << 16, |acc, lo, hi| {
         let owned: Vec<Owned> = specs.iter().map(|s| Owned::new(&s.cfg)).collect();
         let mut buf = Vec::with_capacity(320);
